@@ -38,15 +38,48 @@ Definition DQUOTE : N := 34%N.
 Definition SQUOTE : N := 39%N.
 Definition BACKTICK : N := 96%N.
 
-(* strings.TrimRight(s, " \r") *)
-Fixpoint trim_right_spaces (s : str) : str :=
-  match s with
-  | [] => []
-  | c :: s' => match trim_right_spaces s' with
-               | [] => if N.eqb c SPACE || N.eqb c CR then [] else [c]
-               | t => c :: t
-               end
+(* strings.TrimRightFunc(s, unicode.IsSpace): white space is removed from the end, rune by
+   rune as utf8.DecodeLastRune reads them: the ASCII white space bytes and the UTF-8
+   encodings of U+0085, U+00A0, U+1680, U+2000..U+200A, U+2028, U+2029, U+202F, U+205F,
+   U+3000 (an encoding is the last rune exactly when it is a suffix: its first byte is never
+   a continuation byte).  The string is handled reversed. *)
+Definition ascii_uspace (c : N) : bool := (((9 <=? c) && (c <=? 13)) || (c =? 32))%N.
+
+Definition uspace_tails : list str :=
+  [[133; 194]; [160; 194]; [128; 154; 225];
+   [128; 128; 226]; [129; 128; 226]; [130; 128; 226]; [131; 128; 226]; [132; 128; 226]; [133; 128; 226];
+   [134; 128; 226]; [135; 128; 226]; [136; 128; 226]; [137; 128; 226]; [138; 128; 226];
+   [168; 128; 226]; [169; 128; 226]; [175; 128; 226]; [159; 129; 226]; [128; 128; 227]]%N.
+
+Fixpoint strip_prefix (p s : str) : option str :=
+  match p, s with
+  | [], _ => Some s
+  | x :: p', y :: s' => if N.eqb x y then strip_prefix p' s' else None
+  | _ :: _, [] => None
   end.
+
+Fixpoint first_strip (ps : list str) (s : str) : option str :=
+  match ps with
+  | [] => None
+  | p :: ps' => match strip_prefix p s with Some r => Some r | None => first_strip ps' s end
+  end.
+
+Fixpoint trim_rev (fuel : nat) (r : str) : str :=
+  match fuel with
+  | O => r
+  | S f =>
+      match r with
+      | [] => []
+      | c :: r' =>
+          if ascii_uspace c then trim_rev f r'
+          else match first_strip uspace_tails r with
+               | Some r'' => trim_rev f r''
+               | None => r
+               end
+      end
+  end.
+
+Definition trim_right_spaces (s : str) : str := rev (trim_rev (length s) (rev s)).
 
 (* readLeadingComments (lexer.go): one automaton over the input.
    mode: TWs = between items; TSlash = first '/' of "//" consumed;
